@@ -662,7 +662,9 @@ theorem initial_inv (freqs : List Nat) (l r : Tree) (lengths : Array Nat) (L : N
 
 /-- **`build` with limiting**: when the Huffman tree is deeper than the limit -/
 theorem build_limited (freqs : List Nat) (limit : Nat) (h1 : 1 ≤ limit) (h15 : limit ≤ 15)
-    (h2 : 2 ≤ (freqs.filter (· > 0)).length) (h256 : (freqs.filter (· > 0)).length ≤ 256)
+    (h2 : 2 ≤ (freqs.filter (· > 0)).length)
+    (t : Tree) (hperm : (leaves t).Perm (usedIdx freqs)) (hlen : treeLengths freqs = setLengths freqs.length (depths t 0))
+    (hdepth : ∀ p ∈ depths t 0, p.2 < 256)
     (hspace : freqs.length ≤ 2 ^ limit) (hmax : (treeLengths freqs).foldl max 0 > limit) :
     ∃ lengths codes, build freqs limit = .built lengths codes ∧ lengths.size = freqs.length ∧
       (∀ i, i < freqs.length → (freqs[i]! = 0 → lengths[i]! = 0) ∧ (freqs[i]! > 0 → 1 ≤ lengths[i]! ∧ lengths[i]! ≤ limit)) ∧
@@ -670,12 +672,11 @@ theorem build_limited (freqs : List Nat) (limit : Nat) (h1 : 1 ≤ limit) (h15 :
       (∀ i, i < freqs.length → lengths[i]! ≠ 0 →
         some codes[i]! = (Prefix.canonicalCode lengths.toList i).map fun c => Prefix.reverseBits c lengths[i]!) := by
   have hcnt := used_count freqs
-  obtain ⟨t, hperm, hlen⟩ := treeLengths_spec freqs (by rw [itemsOf_length, hcnt]; omega)
   obtain ⟨l, r, rfl⟩ : ∃ l r, t = .node l r := by
     cases t with
     | leaf s => have := hperm.length_eq; simp [leaves] at this; omega
     | node l r => exact ⟨l, r, rfl⟩
-  have hL := lengthsOf_tree freqs (.node l r) hperm (by rw [hcnt]; exact h256)
+  have hL := lengthsOf_tree freqs (.node l r) hperm hdepth
   rw [← hlen] at hL
   have husedle : (usedIdx freqs).length ≤ freqs.length := by
     rw [usedIdx_eq]
@@ -768,8 +769,15 @@ theorem build_full (freqs : List Nat) (limit : Nat) (h1 : 1 ≤ limit) (h15 : li
       Prefix.kraft lengths.toList limit = 2 ^ limit ∧
       (∀ i, i < freqs.length → lengths[i]! ≠ 0 →
         some codes[i]! = (Prefix.canonicalCode lengths.toList i).map fun c => Prefix.reverseBits c lengths[i]!) := by
+  have hcnt := used_count freqs
+  obtain ⟨t, hperm, hlen⟩ := treeLengths_spec freqs (by rw [itemsOf_length, hcnt]; omega)
+  have hdepth : ∀ p ∈ depths t 0, p.2 < 256 := by
+    intro p hp
+    have := depth_lt_leaves t 0 p hp
+    rw [hperm.length_eq, hcnt] at this
+    omega
   by_cases hmax : (treeLengths freqs).foldl max 0 > limit
-  · exact build_limited freqs limit h1 h15 h2 h256 hspace hmax
-  · exact build_unlimited freqs limit (by omega) h2 h256 (by omega)
+  · exact build_limited freqs limit h1 h15 h2 t hperm hlen hdepth hspace hmax
+  · exact build_unlimited freqs limit (by omega) h2 t hperm hlen hdepth (by omega)
 
 end EncHuff
